@@ -5,7 +5,8 @@ namespace Oracle.C04
 
 def suites : List (String × Suite) := [
   ("actorsys", Oracle.ActorSys.model),
-  ("actorsys-judge", Oracle.ActorSys.judgeC04)
+  ("actorsys-judge", Oracle.ActorSys.judgeC04),
+  ("actorsys-fine-judge", Oracle.ActorSys.judgeC04fine)
 ]
 
 end Oracle.C04
